@@ -140,6 +140,11 @@ pub fn run(toks: &[&str], out: &mut String) {
                     let mut it = v.iter();
                     out.push_str(&format!("L{}", it.len()));
                     for op in toks[4].split(',') {
+                        if op == "c" {
+                            // the history continues on a clone of the iterator taken here
+                            it = it.clone();
+                            continue;
+                        }
                         let r = if op == "x" { it.next() } else { it.nth(op.parse().unwrap()) };
                         match r {
                             Some(x) => out.push_str(&format!(" S{}", int(*x))),
